@@ -171,9 +171,10 @@ prop("C18",
 prop("C20",
      level="exploration",
      tests=[dict(name="TestC20", quick=5000, thorough=20000),
+            dict(name="TestC20Close", quick=600, thorough=4000),
             dict(name="FuzzAPIProgram", tier="quick", quick=1),  # seeds + committed corpus, plain run
             dict(name="FuzzAPIProgram", tier="thorough", fuzz=True, thorough=300, minimize="20x")],
-     rule="rapid-generated programs over EVERY exported method of DB and Tx (all 53 Tx methods incl. FindTxIDOnDisk/FindOnDisk/FindLeafOnDisk, DB.Update/View/Begin/Merge/Backup/Close): a population phase fills key/value pairs, a list, two sets and a sorted set in the empty-named bucket and in bucket b (all three index modes, segment sizes 200/512/8192 so commits rotate), then 1-10 steps: writable or read-only transactions (managed and manual, commit or rollback) of 1-5 calls whose arguments are drawn from boundary-heavy domains (nil/empty/separator/255-, 256- and 70000-byte keys and buckets, MinInt64..MaxInt64 indexes, counts, offsets and limits, NaN/+-Inf/+-MaxFloat64/-0 scores, nil and populated range options, invalid regular expressions, extreme TTLs and timestamps), 1-3 further calls on the transaction after its Commit/Rollback, Close (then every kind of step on the closed database), reopen, Merge and Backup. Oracle: no call, Begin, Commit, Rollback, Update/View, Merge, Backup, Close or Open panics (so in particular a call that succeeded never makes the later Commit panic). Non-trivial: a program with an extreme argument aimed at a populated bucket, a call on a finished transaction, or a step after Close; inner_enumerations counts the API calls made.",
+     rule="(TestC20Close) rapid-generated concurrent programs: 1-6 writer goroutines (managed and manual two-put transactions) and 0-3 reader goroutines run 2-12 transactions each while another goroutine calls DB.Close after a drawn number of transactions have started (hook-driven yields as in C14): every call returns, none panics, a transaction begun after Close returned reports an error, Update/View/Begin/Close on the closed database report errors, the directory opens again; non-trivial when Close landed between successful and refused write transactions. (TestC20) rapid-generated programs over EVERY exported method of DB and Tx (all 53 Tx methods incl. FindTxIDOnDisk/FindOnDisk/FindLeafOnDisk, DB.Update/View/Begin/Merge/Backup/Close): a population phase fills key/value pairs, a list, two sets and a sorted set in the empty-named bucket and in bucket b (all three index modes, segment sizes 200/512/8192 so commits rotate), then 1-10 steps: writable or read-only transactions (managed and manual, commit or rollback) of 1-5 calls whose arguments are drawn from boundary-heavy domains (nil/empty/separator/255-, 256- and 70000-byte keys and buckets, MinInt64..MaxInt64 indexes, counts, offsets and limits, NaN/+-Inf/+-MaxFloat64/-0 scores, nil and populated range options, invalid regular expressions, extreme TTLs and timestamps), 1-3 further calls on the transaction after its Commit/Rollback, Close (then every kind of step on the closed database), reopen, Merge and Backup. Oracle: no call, Begin, Commit, Rollback, Update/View, Merge, Backup, Close or Open panics (so in particular a call that succeeded never makes the later Commit panic). Non-trivial: a program with an extreme argument aimed at a populated bucket, a call on a finished transaction, or a step after Close; inner_enumerations counts the API calls made.",
      assumptions=["an Open that returns an error (structures written in an index mode that does not support them) ends the program without a verdict (counted as stopped-open-error); Options values outside their documented ranges and nil receivers are not generated",
                   "thorough tier adds a coverage-guided campaign (FuzzAPIProgram: rapid.MakeFuzz over the same generator, 300 s, all cores); a fuzz worker that the Go engine kills for slowness is not a verdict unless its input fails when run alone"],
      technique="property-based testing (rapid) of API programs with hostile arguments; native Go fuzzing of the same generator; oracle: absence of panics", engine="E1+E5")
